@@ -3,6 +3,8 @@ import Cfdp.Model.Checksum
 import Cfdp.Model.Path
 import Cfdp.Model.Codec.Pdu
 import Cfdp.Model.Udp
+import Cfdp.Model.Recv
+import Cfdp.Model.Send
 
 /-!
 Line-protocol driver: executes the model's definitions on the op lines produced by the Rust
@@ -14,6 +16,11 @@ open Cfdp
 structure DState where
   segs : List Seg.Seg := []
   udpBuf : Codec.Bytes := []
+  now : Nat := 0
+  recv : Option Recv.State := none
+  recvDead : Bool := false
+  send : Option Send.State := none
+  sendDead : Bool := false
 
 def fmtPairs (l : List (Nat × Nat)) : String :=
   "[" ++ ",".intercalate (l.map (fun p => s!"{p.1}-{p.2}")) ++ "]"
@@ -191,6 +198,232 @@ def udpStep (st : DState) (toks : List String) : DState × String :=
     | none => (st, "bad-op")
   | _ => (st, "bad-op")
 
+namespace TxnFmt
+open Cfdp.Codec Cfdp.Gen Cfdp.Timer
+
+def ctr (c : Counter) (now : Nat) : String :=
+  let occ := if c.occurred then "!" else ""
+  if c.paused then s!"P{c.count}{occ}" else s!"R{c.count}{occ}@{now - c.start}"
+
+def pairs (l : List (Nat × Nat)) : String := ",".intercalate (l.map (fun p => s!"{p.1}-{p.2}"))
+
+def optNat : Option Nat → String
+  | none => "-"
+  | some n => toString n
+
+def untilStr : Option Nat → String
+  | none => "max"
+  | some n => toString n
+
+def b01 (b : Bool) : String := if b then "1" else "0"
+
+def respInd (r : FsResponse) : String := s!"{r.action.toNat * 16 + r.status}.{hex r.name1}.{hex r.name2}"
+
+def condOf (n : Nat) : Condition := (Condition.ofNat? n).getD .NoError
+
+def parseFho (s : String) : List (Condition × FaultHandlerAction) :=
+  if s == "-" then [] else
+  (s.splitOn ";").filterMap (fun part =>
+    match part.splitOn ":" with
+    | [c, a] =>
+      match c.toNat? with
+      | some n => some (condOf n, match a with
+          | "c" => FaultHandlerAction.Cancel | "s" => .Suspend | "i" => .Ignore | _ => .Abandon)
+      | none => none
+    | _ => none)
+
+def digest (b : Bytes) : String :=
+  let w := (b.zipIdx.foldl (fun acc (x, i) => (acc + (i + 1) * x.toNat) % 4294967296) 0)
+  let ck := (Cksum.checksumLoop (Cksum.chunkBy [8192] (b.length + 1) 0 b)).toNat
+  s!"{b.length}.{w}.{ck}"
+
+def relStr (p : Fs.RelPath) : String := "/".intercalate (p.map String.ofList)
+
+def pathLe : Fs.RelPath → Fs.RelPath → Bool
+  | [], _ => true
+  | _ :: _, [] => false
+  | a :: as, b :: bs =>
+    let ab := Fs.charsToBytes a; let bb := Fs.charsToBytes b
+    if ab == bb then pathLe as bs
+    else (ab.map (·.toNat)) < (bb.map (·.toNat))
+
+def fsListing (fs : Fs.FS) : String :=
+  let ents := (fs.filter (fun e => !e.1.isEmpty)).toArray.qsort (fun a b => pathLe a.1 b.1 && a.1 != b.1) |>.toList
+  "{" ++ ",".intercalate (ents.map (fun e => match e.2 with
+    | .dir => s!"d:{relStr e.1}"
+    | .file c => s!"f:{relStr e.1}:{digest c}")) ++ "}"
+
+def recvInd : Recv.Ind → String
+  | .eofRecv => "EoFRecv"
+  | .finished c d f st ss rs => s!"Finished({c.toNat},{d.toNat},{f.toNat},{st.toNat},{ss.toNat},<{"+".intercalate (rs.map respInd)}>)"
+  | .metadataRecv a b n k => s!"MetadataRecv({hex a},{hex b},{n},{k})"
+  | .fileSegmentRecv o l => s!"FileSegmentRecv({o},{l})"
+  | .suspended c => s!"Suspended({c.toNat})"
+  | .resumed p => s!"Resumed({p})"
+  | .report st ss c => s!"Report({st.toNat},{ss.toNat},{c.toNat})"
+  | .fault c p => s!"Fault({c.toNat},{p})"
+  | .abandon c p => s!"Abandon({c.toNat},{p})"
+
+def sendInd : Send.Ind → String
+  | .transaction => "Transaction"
+  | .eofSent => "EoFSent"
+  | .finished c d f st ss rs => s!"Finished({c.toNat},{d.toNat},{f.toNat},{st.toNat},{ss.toNat},<{"+".intercalate (rs.map respInd)}>)"
+  | .suspended c => s!"Suspended({c.toNat})"
+  | .resumed p => s!"Resumed({p})"
+  | .report st ss c => s!"Report({st.toNat},{ss.toNat},{c.toNat})"
+  | .fault c p => s!"Fault({c.toNat},{p})"
+  | .abandon c p => s!"Abandon({c.toNat},{p})"
+
+def recvSnap (s : Recv.State) (now : Nat) : String :=
+  let fin := match s.finished with | some (_, f) => b01 f | none => "-"
+  let pr := match s.prompt with | some k => k.name | none => "-"
+  let delayed := ",".intercalate (s.delayed.map (fun e => s!"{ctr e.1 now}:{e.2.1}-{e.2.2}"))
+  s!"rs={s.recvState.name} st={s.state.name} status={s.status.name} cond={s.condition.name} dc={s.delivery.name} fs={s.fileStatus.name} meta={b01 s.md.isSome} eof={optNat s.fileSize} ck={optNat s.checksum} rx={s.received} nakrx={s.nakReceived} ack={b01 s.ack.isSome} fin={fin} prompt={pr} segs=[{pairs s.segs}] naks=[{pairs s.naks}] delayed=[{delayed}] ti={ctr s.timer.inactivity now} ta={ctr s.timer.ack now} tn={ctr s.timer.nak now} fh={b01 s.tempFile.isSome}"
+
+def sendSnap (s : Send.State) (now : Nat) : String :=
+  let eof := match s.eof with | some (_, f) => b01 f | none => "-"
+  let pr := match s.prompt with | some k => k.name | none => "-"
+  s!"ss={s.sendState.name} st={s.state.name} status={s.status.name} cond={s.condition.name} dc={s.delivery.name} fs={s.fileStatus.name} sent={s.progress} rx={s.rxProgress} eof={eof} ack={b01 s.ack.isSome} prompt={pr} naks=[{pairs s.naks}] cur={optNat s.cursor} ti={ctr s.timer.inactivity now} ta={ctr s.timer.ack now} eofind={b01 s.eofInd}"
+
+def initFs : Fs.FS :=
+  [([], .dir), (["d".toList], .dir), (["old".toList], .file "OLD".toUTF8.toList),
+   (["d".toList, "x".toList], .file "xx".toUTF8.toList)]
+
+def u16id (n : Nat) : VarId := ⟨2, n⟩
+
+def fileOf (spec : String) : Bytes :=
+  match spec.splitOn ":" with
+  | ["lin", len, a, c] => linData (len.toNat?.getD 0) (a.toNat?.getD 0) (c.toNat?.getD 0)
+  | ["zero", len] => List.replicate (len.toNat?.getD 0) 0
+  | ["hex", h] => (unhex h).getD []
+  | ["neutral", len] =>
+    let n := len.toNat?.getD 0
+    let rec go (fuel : Nat) (k : Nat) (acc : Bytes) : Bytes :=
+      match fuel with
+      | 0 => acc
+      | f + 1 =>
+        if acc.length ≥ n then acc else
+        let neg := (4294967296 - k) % 4294967296
+        go f ((k * 31 + 7) % 4294967296) (acc ++ Codec.beBytes 4 k ++ Codec.beBytes 4 neg)
+    (go (n / 8 + 2) 16909060 []).take n
+  | _ => []
+
+def stdRequests (n : Nat) : List FsRequest :=
+  ([ { action := .CreateFile, name1 := "new.txt".toUTF8.toList, name2 := [] },
+     { action := .AppendFile, name1 := "old".toUTF8.toList, name2 := "d/x".toUTF8.toList },
+     { action := .DeleteFile, name1 := "nope".toUTF8.toList, name2 := [] },
+     { action := .CreateDirectory, name1 := "e".toUTF8.toList, name2 := [] } ] : List FsRequest).take n
+
+end TxnFmt
+
+open TxnFmt in
+def recvStep (st : DState) (toks : List String) : DState × String :=
+  match toks with
+  | ["new", mode, fss, seg, crc, mx, ti, ta, tn, np, delay, fho] =>
+    let cfg : Recv.Config :=
+      { mode := if mode == "ack" then .Acknowledged else .Unacknowledged,
+        fss := if fss == "s" then .Small else .Large,
+        seg := seg.toNat?.getD 0, crc := if crc == "1" then .Present else .NotPresent,
+        max := mx.toNat?.getD 0, ti := ti.toNat?.getD 0, ta := ta.toNat?.getD 0, tn := tn.toNat?.getD 0,
+        immediate := np == "imm", delay := (delay.toNat?.getD 0) * 1000000, fho := parseFho fho,
+        src := u16id 1, dst := u16id 2, seq := u16id 7 }
+    let s := Recv.new cfg initFs 0
+    ({ st with now := 0, recv := some s, recvDead := false },
+      s!"ok ind=[{";".intercalate (s.out.map recvInd)}] st={recvSnap s 0} fs={fsListing s.fs}")
+  | op :: args =>
+    match st.recv with
+    | none => (st, "bad-op")
+    | some s0 =>
+      if st.recvDead then (st, "dead") else
+      if s0.state == .Terminated && op != "adv" then (st, "terminated") else
+      let s0 := { s0 with out := [], sent := none }
+      let now := st.now
+      let fin (st : DState) (s : Recv.State) (res : String) (now : Nat) : DState × String :=
+        let res := if s.panicked then "panic" else res
+        let pdu := match s.sent with | some p => hex p.encode | none => "-"
+        ({ st with recv := some s, now := now, recvDead := s.panicked },
+          s!"res={res} pdu={pdu} ind=[{";".intercalate (s.out.map recvInd)}] st={recvSnap s now} has={b01 (Recv.hasPduToSend s)} until={untilStr (Recv.untilTimeout s now)} fs={fsListing s.fs}")
+      match op, args with
+      | "pdu", h :: _ =>
+        match unhex h with
+        | none => (st, "bad-op")
+        | some bs =>
+          match Codec.Pdu.decode bs with
+          | .error e => fin st s0 ("undecodable:" ++ CodecFmt.errName e) now
+          | .ok p =>
+            let (s, r) := Recv.processPdu s0 p now
+            fin st s (match r with | .ok => "ok" | .unexpected => "err:UnexpectedPDU") now
+      | "send", _ =>
+        if Recv.hasPduToSend s0 then fin st (Recv.sendPdu s0 now) "ok" now else fin st s0 "nothing" now
+      | "adv", [ms] => fin st s0 "ok" (now + (ms.toNat?.getD 0) * 1000000)
+      | "timeout", _ =>
+        if Recv.untilTimeout s0 now != some 0 then fin st s0 "notdue" now
+        else fin st (Recv.handleTimeout s0 now) "ok" now
+      | "cancel", _ => fin st (Recv.cancel s0 now) "ok" now
+      | "suspend", _ => fin st (Recv.suspend s0 now) "ok" now
+      | "resume", _ => fin st (Recv.resume s0 now) "ok" now
+      | "report", _ => fin st (Recv.sendReport s0) "ok" now
+      | "abandon", _ => fin st (Recv.shutdown s0 now) "ok" now
+      | _, _ => (st, "bad-op")
+  | _ => (st, "bad-op")
+
+open TxnFmt in
+def sendStep (st : DState) (toks : List String) : DState × String :=
+  match toks with
+  | ["new", mode, seg, crc, mx, ti, ta, tn, closure, ck, fho, file, nreq] =>
+    let content := if file == "-" then [] else fileOf file
+    let cfg : Send.Config :=
+      { mode := if mode == "ack" then .Acknowledged else .Unacknowledged, fss := .Small,
+        seg := seg.toNat?.getD 0, crc := if crc == "1" then .Present else .NotPresent,
+        max := mx.toNat?.getD 0, ti := ti.toNat?.getD 0, ta := ta.toNat?.getD 0, tn := tn.toNat?.getD 0,
+        fho := parseFho fho, src := u16id 1, dst := u16id 2, seq := u16id 7 }
+    let md : Send.Meta :=
+      { srcName := if file == "-" then [] else "src.bin".toUTF8.toList,
+        dstName := if file == "-" then [] else "out/dst.bin".toUTF8.toList,
+        fileSize := content.length, requests := stdRequests (nreq.toNat?.getD 0),
+        messages := ["hi".toUTF8.toList], closure := closure == "1",
+        cksumType := if ck == "15" then .Null else .Modular }
+    let s := Send.new cfg md content 0
+    ({ st with now := 0, send := some s, sendDead := false },
+      s!"ok ind=[{";".intercalate (s.out.map sendInd)}] st={sendSnap s 0}")
+  | op :: args =>
+    match st.send with
+    | none => (st, "bad-op")
+    | some s0 =>
+      if st.sendDead then (st, "dead") else
+      if s0.state == .Terminated && op != "adv" then (st, "terminated") else
+      let s0 := { s0 with out := [], sent := none }
+      let now := st.now
+      let fin (st : DState) (s : Send.State) (res : String) (now : Nat) : DState × String :=
+        let res := if s.panicked then "panic" else res
+        let pdu := match s.sent with | some p => hex p.encode | none => "-"
+        ({ st with send := some s, now := now, sendDead := s.panicked },
+          s!"res={res} pdu={pdu} ind=[{";".intercalate (s.out.map sendInd)}] st={sendSnap s now} has={b01 (Send.hasPduToSend s)} until={untilStr (Send.untilTimeout s now)}")
+      match op, args with
+      | "pdu", h :: _ =>
+        match unhex h with
+        | none => (st, "bad-op")
+        | some bs =>
+          match Codec.Pdu.decode bs with
+          | .error e => fin st s0 ("undecodable:" ++ CodecFmt.errName e) now
+          | .ok p =>
+            let (s, r) := Send.processPdu s0 p now
+            fin st s (match r with | .ok => "ok" | .unexpected => "err:UnexpectedPDU") now
+      | "send", _ =>
+        if Send.hasPduToSend s0 then fin st (Send.sendPdu s0 now) "ok" now else fin st s0 "nothing" now
+      | "adv", [ms] => fin st s0 "ok" (now + (ms.toNat?.getD 0) * 1000000)
+      | "timeout", _ =>
+        if Send.untilTimeout s0 now != some 0 then fin st s0 "notdue" now
+        else fin st (Send.handleTimeout s0 now) "ok" now
+      | "cancel", _ => fin st (Send.cancel s0 now) "ok" now
+      | "suspend", _ => fin st (Send.suspend s0 now) "ok" now
+      | "resume", _ => fin st (Send.resume s0 now) "ok" now
+      | "report", _ => fin st (Send.sendReport s0) "ok" now
+      | "abandon", _ => fin st (Send.shutdown s0 now) "ok" now
+      | "prompt", [k] => fin st (Send.preparePrompt s0 (if k == "nak" then .Nak else .KeepAlive)) "ok" now
+      | _, _ => (st, "bad-op")
+  | _ => (st, "bad-op")
+
 def step (st : DState) (line : String) : DState × String :=
   match (line.splitOn " ").filter (· ≠ "") with
   | "seg" :: rest => segStep st rest
@@ -198,6 +431,8 @@ def step (st : DState) (line : String) : DState × String :=
   | "path" :: rest => (st, pathStep rest)
   | "codec" :: rest => (st, codecStep rest)
   | "udp" :: rest => udpStep st rest
+  | "recv" :: rest => recvStep st rest
+  | "send" :: rest => sendStep st rest
   | _ => (st, "bad-op")
 
 partial def loop (h : IO.FS.Stream) (out : IO.FS.Stream) (st : DState) : IO Unit := do
